@@ -802,10 +802,13 @@ def render_path(rng, elems):
         else:
             if not first and rng.random() < 0.1:
                 out += b"."
+            # subscripts are decimal: zero padding ("%02d") changes nothing
+            pad = rng.choice((b"%d", b"%d", b"%d", b"%d", b"%d", b"%d", b"%d",
+                              b"%02d", b"%03d", b"0%d"))
             if el[0] == "i":
-                out += b"[%d]" % el[1]
+                out += b"[" + pad % el[1] + b"]"
             elif el[0] == "ins":
-                out += b"[%d+]" % el[1]
+                out += b"[" + pad % el[1] + b"+]"
             else:
                 out += b"[+]"
         first = False
@@ -1077,6 +1080,9 @@ BAD_DESCR = [
     b"a]", b"a}", b"a.b]", b"[0]x", b"[0]]", b"a{}x", b"a{}.b", b"a[]x",
     b"a[][0]", b"a.b.=", b".]", b"[1]{}{}", b"a.c d[2].e!", b"s$", b"a+",
     b"[0]+", b"a[0]", b"[0].k", b"a.b.c", b"a.b[0]",
+    # subscripts that are not plain decimal numbers / zero-padded ones
+    b"[0x1]", b"[0x10]", b"[1e0]", b"[0b1]", b"[01]", b"[010]", b"[08]",
+    b"l[09]", b"[00]", b"a.c d[002].e",
     # insert / append forms in non-set calls
     b"[+]", b"[0+]", b"a.c d[+]", b"a.c d[1+].e", b"l[+]", b"[2][0+]",
     # key on a list, subscript on a map, look-ups through null / scalars
